@@ -3,6 +3,7 @@ group law (Lean, statements regenerated from /repo's source by tools/gen_curve_l
 from pyvc.api import *
 from spec.core import *
 from spec.group import inv_mod
+from spec.numth import *
 from pycoin.ecdsa.Curve import Curve
 
 INFINITY = (None, None)
@@ -44,22 +45,63 @@ def _mk_curve(v):
     return secp256k1_generator
 
 
-CURVE = Obj(Curve, dict(_p=Int(3), _a=Int(), _b=Int(), _infinity=Const(INFINITY), Point=Const(_plain_point)), make=_mk_curve)
+CURVE = Obj(Curve, dict(_p=Int(3), _a=Int(), _b=Int(), _infinity=Const(INFINITY), Point=Const(_plain_point)), make=_mk_curve, shared=True)
+
+
+@axiom(sig=dict(a=Int(), m=Int(2)), reason="definition of the symbol inv_mod: where a residue coprime to m has an inverse in (0, m) (it does: Bezout; "
+                                             "lean/ModArith.lean exists_inverse), inv_mod(a mod m, m) denotes it")
+def inv_mod_def(a, m):
+    w = inv_mod(a % m, m)
+    return implies(m >= 2 and gcd(m, a % m) == 1, (w * a) % m == 1 and 0 < w and w < m)
 
 
 @contract("pycoin.ecdsa.Curve:Curve.inverse_mod")
 class inverse_mod:
+    """extended Euclid (Ferguson-Schneier form): Bezout coefficients as loop invariant, the classical size invariant
+    |uc| d + |ud| c = m for the range of the result, uniqueness of inverses (Lean) for the link to inv_mod"""
     props = ["C02"]
-    verify = False
-    assumed_reason = "extended Euclid: for m prime and a not divisible by m the result is the inverse of a modulo m in (0, m) (bounded check C02.*; the loop's gcd invariant is not proved)"
     sig = dict(self=CURVE, a=Int(), m=Int(2))
     returns = Int()
 
     def requires(self, a, m):
-        return a % m != 0
+        return m >= 2 and a % m != 0 and is_prime(m)
 
-    def ensures_inverse(self, a, m, result):
-        return (0 < result, result < m, (result * a) % m == 1, result == inv_mod(a % m, m))
+    def hints(self, a, m):
+        prime_coprime(m, a)
+
+    def at_return(self, a, m, ud, vd, old_a):
+        bezout_mod(ud, a, vd, m)             # (ud * a) % m == 1 for the reduced a
+        mod_mul_cong(ud, old_a, m)           # ... and so for the argument itself
+        mod_shift(ud, old_a, m)              # ... and for ud + m
+        inv_mod_def(old_a, m)
+        inverse_unique(m, old_a, ud, inv_mod(old_a % m, m))
+        inverse_unique(m, old_a, ud + m, inv_mod(old_a % m, m))
+
+    def ensures_range(self, a, m, result):
+        return (0 < result, result < m)
+
+    def ensures_product(self, a, m, result):
+        return (result * a) % m == 1
+
+    def ensures_spec(self, a, m, result):
+        return result == inv_mod(a % m, m)
+
+    canaries = [("ud - q * uc", "ud + q * uc"), ("return ud + m", "return ud")]
+
+    def samples(rng):
+        m = rng.choice([2, 3, 5, 7, 11, 13, 101, 65537, 2 ** 127 - 1, 2 ** 256 - 2 ** 32 - 977,
+                        0xFFFFFFFFFFFFFFFFFFFFFFFFFFFFFFFEBAAEDCE6AF48A03BBFD25E8CD0364141])
+        a = rng.choice([rng.randrange(-3 * m, 3 * m), rng.randrange(1, m) if m > 2 else 1, -1, 1, m - 1, m + 1])
+        return {'self': _mk_curve(None), 'a': a, 'm': m}
+
+
+@invariant("pycoin.ecdsa.Curve:Curve.inverse_mod", 0)
+def _euclid_inv(self, a, m, c, d, uc, vc, ud, vd, old_a):
+    return (a == old_a % m, 0 <= c, c < d, gcd(d, c) == 1,
+            uc * a + vc * m == c, ud * a + vd * m == d,
+            (uc >= 0 and ud <= 0) or (uc <= 0 and ud >= 0),
+            abs(ud) <= abs(uc),
+            abs(uc) * d + abs(ud) * c == m)
 
 
 def add_spec(p, a, p0, p1):
@@ -86,12 +128,15 @@ class curve_add:
     props = ["C02"]
     sig = dict(self=CURVE, p0=PointXY(), p1=PointXY())
     lean_gen = ("tools/gen_curve_lean.py", "lean/gen/CurveAddGen.lean")
+    # the (nonlinear) product clause of inverse_mod's contract is not needed here and only slows the solvers down
+    options = {'callee_ensures': {"pycoin.ecdsa.Curve:Curve.inverse_mod": ["range", "spec"]}}
 
     def requires(self, p0, p1):
         # doubling needs an invertible 2*y0 (true for points of odd order on the curve: Lean theorem add_double derives it)
         if p0[0] is None or p1[0] is None:
             return True
-        return implies((p0[0] - p1[0]) % self._p == 0 and (p0[1] + p1[1]) % self._p != 0, (2 * p0[1]) % self._p != 0)
+        return (is_prime(self._p),
+                implies((p0[0] - p1[0]) % self._p == 0 and (p0[1] + p1[1]) % self._p != 0, (2 * p0[1]) % self._p != 0))
 
     def ensures_formulas(self, p0, p1, result):
         return result == add_spec(self._p, self._a, p0, p1)
